@@ -1282,7 +1282,7 @@ func main() {
 	runner.Main(runner.Check{
 		Property: "C02",
 		Level:    "exploration",
-		Rule:     "one case = one program of 3-12 RPCs (clean shapes and early-ending kinds at seeded positions, some handlers that keep sending after the client left) issued by 1-4 goroutines on one connection, in a seeded configuration cell, under one of: perturbed scheduling, the client goroutine of later RPCs parked at one of 6 internal points until everything earlier RPCs left behind has been delivered, or plain; plus the late-first-receive family (an RPC whose first receive happens only after it has finished on the wire and the next RPC of another goroutine sits at an internal point with frames written but not flushed) and the abandoned-after-metadata family (an RPC with metadata cancelled between its metadata write and its invoke write, followed by RPCs with their own metadata) and the cancel-meets-finish family (an RPC that ends normally and is cancelled while its completion sits at one of 6 internal points, followed by an RPC that cancels itself and by clean RPCs: what the first left behind must not decide how the later ones turn out) and the ended-early-behind-buffered-answer family (a manual-flush server whose handler has an answer buffered when the client closes or soft-cancels the RPC and which then returns nil, followed by a unary RPC) and the queued-cancel family (RPC 1 soft-cancelled with its cancel packet held back by the transport, RPC 2 cancelled while waiting for its turn, then a clean RPC 3). Every delivered message carries (rpc tag, direction, sequence, checksum); handler errors carry their rpc number. Non-trivial: all cases. Distinct: by configuration and program text; evidence also counts distinct point-hit sequences.",
+		Rule:     "one case = one program of 3-12 RPCs (clean shapes and early-ending kinds at seeded positions, some handlers that keep sending after the client left) issued by 1-4 goroutines on one connection, in a seeded configuration cell, under one of: perturbed scheduling, the client goroutine of later RPCs parked at one of 6 internal points until everything earlier RPCs left behind has been delivered, or plain; plus the late-first-receive family (an RPC whose first receive happens only after it has finished on the wire and the next RPC of another goroutine sits at an internal point with frames written but not flushed) and the abandoned-after-metadata family (an RPC with metadata cancelled between its metadata write and its invoke write, followed by RPCs with their own metadata) and the cancel-meets-finish family (an RPC that ends normally and is cancelled while its completion sits at one of 6 internal points, followed by an RPC that cancels itself and by clean RPCs: what the first left behind must not decide how the later ones turn out) and the ended-early-behind-buffered-answer family (a manual-flush server whose handler has an answer buffered when the client closes or soft-cancels the RPC and which then returns nil, followed by a unary RPC) and the queued-cancel family (RPC 1 soft-cancelled with its cancel packet held back by the transport, RPC 2 cancelled while waiting for its turn, then a clean RPC 3). Every delivered message carries (rpc tag, direction, sequence, checksum); handler errors carry their rpc number. Non-trivial: all cases. Distinct: by configuration and program text; evidence also counts distinct point-hit sequences. (late-calls-on-ended-rpc) a client that flushes by hand: RPC 1 ended (handler error / handler finished / client Close / both half-closes), RPC 2 created with one message sent and not flushed, then RawFlush, MsgSend, CloseSend or Close on RPC 1's stream: the server must not be handling RPC 2 before RPC 2 is flushed, and RPC 2 gets its own answer.",
 		Assumptions: []string{
 			"a clean RPC must succeed completely only if the connection never reported closed during the program (a hard cancel closes it legitimately)",
 			"a call that never returns makes the case inconclusive here (C04/C05/C06 decide progress)",
